@@ -205,29 +205,25 @@ Proof.
       cbn [sumf fold_right snd fst]. split; [cbn [length]; lia|]. fold (sumf t). lia.
 Qed.
 
-Lemma flex_pass2_ok d cl (Hcl : Valid cl) (E1 : c_minh cl = 0) (E2 : c_minw cl = 0) : forall (l : list (lchild * ltree)) a,
-  Forall (fun x => lchild_ok (fst x)) l -> sumf (map fst l) <= f2_total a ->
-  exists p, fold_left (flex_pass2 d cl) l (Ok a) = Ok p /\
+Lemma flex_pass2_ok share d cl (Hcl : Valid cl) (E1 : c_minh cl = 0) (E2 : c_minw cl = 0) : forall (l : list (lchild * ltree)) a,
+  Forall (fun x => lchild_ok (fst x)) l ->
+  exists p, fold_left (flex_pass2 share d cl) l (Ok a) = Ok p /\
     length (f2_trees p) = (length (f2_trees a) + length l)%nat.
 Proof.
-  induction l as [|[ch t0] t IH]; intros a Hall Hsum.
+  induction l as [|[ch t0] t IH]; intros a Hall.
   - exists a. cbn. split; auto; lia.
   - apply Forall_cons_iff in Hall as [Hch Ht]. destruct ch as [[lay fl] al]. cbn [fold_left].
-    unfold flex_pass2 at 2. cbn [bind]. cbn [map fst sumf fold_right snd] in Hsum. fold (sumf (map fst t)) in Hsum.
+    unfold flex_pass2 at 2. cbn [bind].
     destruct fl as [f|].
-    + destruct (f2_total a =? 0) eqn:Ez; [apply N.eqb_eq in Ez; lia|].
-      destruct (flex_share (f2_remain a) (N.pos f) (f2_total a) =? 0).
-      * destruct (IH (mkFl2 (f2_trees a ++ [t0]) (f2_remain a) (f2_flex a) (f2_minor a) (f2_total a - N.pos f)) Ht)
-          as (p & -> & L); [cbn; lia|].
+    + destruct (N.min (share (f2_idx a) (f2_remain a)) (f2_remain a) =? 0).
+      * match goal with |- exists p, fold_left _ _ (Ok ?acc) = _ /\ _ => destruct (IH acc Ht) as (p & -> & L) end.
         exists p. split; [reflexivity|]. cbn [f2_trees] in L. rewrite app_length in L. cbn in L. cbn [length]. lia.
-      * destruct (Hch (axis_ct d cl 0 (flex_share (f2_remain a) (N.pos f) (f2_total a)))) as (t1 & E).
+      * destruct (Hch (axis_ct d cl 0 (N.min (share (f2_idx a) (f2_remain a)) (f2_remain a)))) as (t1 & E).
         { now apply valid_axis_ct. }
         cbn [fst] in E. rewrite E. cbn [bind].
-        match goal with |- exists p, fold_left _ _ (Ok ?acc) = _ /\ _ => destruct (IH acc Ht) as (p & -> & L) end;
-          [cbn; lia|].
+        match goal with |- exists p, fold_left _ _ (Ok ?acc) = _ /\ _ => destruct (IH acc Ht) as (p & -> & L) end.
         exists p. split; [reflexivity|]. cbn [f2_trees] in L. rewrite app_length in L. cbn in L. cbn [length]. lia.
-    + destruct (IH (mkFl2 (f2_trees a ++ [t0]) (f2_remain a) (f2_flex a) (f2_minor a) (f2_total a)) Ht)
-        as (p & -> & L); [cbn; lia|].
+    + match goal with |- exists p, fold_left _ _ (Ok ?acc) = _ /\ _ => destruct (IH acc Ht) as (p & -> & L) end.
       exists p. split; [reflexivity|]. cbn [f2_trees] in L. rewrite app_length in L. cbn in L. cbn [length]. lia.
 Qed.
 
@@ -248,8 +244,8 @@ Proof.
   - apply IH. apply Forall_cons_iff in H. tauto.
 Qed.
 
-Lemma flex_layout_ok d j c cs : Valid c -> Forall lchild_ok cs ->
-  exists t, flex_layout d j c cs = Ok t /\ Within c t.
+Lemma flex_layout_ok share d j c cs : Valid c -> Forall lchild_ok cs ->
+  exists t, flex_layout share d j c cs = Ok t /\ Within c t.
 Proof.
   intros Hv Hall. unfold flex_layout.
   destruct (flex_pass1_ok d (ct_loosen c) (valid_loosen c) cs
@@ -258,14 +254,13 @@ Proof.
   set (remain := major d (c_maxh c) (c_maxw c) - f1_nonflex p1).
   assert (Hp2 : exists p2,
             (if (0 <? remain) && (0 <? f1_total p1)
-             then fold_left (flex_pass2 d (ct_loosen c)) (combine cs (f1_trees p1))
-                            (Ok (mkFl2 [] remain 0 (f1_minor p1) (f1_total p1)))
-             else Ok (mkFl2 (f1_trees p1) remain 0 (f1_minor p1) (f1_total p1))) = Ok p2).
+             then fold_left (flex_pass2 (share (flex_factors cs)) d (ct_loosen c)) (combine cs (f1_trees p1))
+                            (Ok (mkFl2 [] remain 0 (f1_minor p1) 0%nat))
+             else Ok (mkFl2 (f1_trees p1) remain 0 (f1_minor p1) 0%nat)) = Ok p2).
   { destruct ((0 <? remain) && (0 <? f1_total p1)); [|eauto].
-    destruct (flex_pass2_ok d (ct_loosen c) (valid_loosen c) eq_refl eq_refl (combine cs (f1_trees p1))
-                (mkFl2 [] remain 0 (f1_minor p1) (f1_total p1))) as (p2 & E & _).
+    destruct (flex_pass2_ok (share (flex_factors cs)) d (ct_loosen c) (valid_loosen c) eq_refl eq_refl (combine cs (f1_trees p1))
+                (mkFl2 [] remain 0 (f1_minor p1) 0%nat)) as (p2 & E & _).
     - now apply forall_combine.
-    - cbn [f2_total]. rewrite T1. pose proof (sumf_combine cs (f1_trees p1)). lia.
     - eauto. }
   destruct Hp2 as (p2 & ->). cbn [bind].
   destruct (flex_spaces_ok j (major d (c_maxh c) (c_maxw c) - sat_addN (f1_nonflex p1) (f2_flex p2)) (N.of_nat (length cs)))
@@ -309,7 +304,7 @@ Proof.
   induction v using vtree_rect; intros c Hv; cbn [layout].
   - destruct (text_layout_ok vc cells wraps c Hv) as (t & -> & _). eauto.
   - destruct (text_layout_ok vc (str_cells chars) true c Hv) as (t & -> & _). eauto.
-  - destruct (flex_layout_ok d j c
+  - destruct (flex_layout_ok (v_share vc) d j c
                 (map (fun ch : fchild => match ch with (v', fl, _, al) => (layout vc v', fl, al) end) cs) Hv)
       as (t & -> & _); [|eauto].
     induction cs as [|[[[v' fl] fc] al] rest IHr]; cbn [map]; constructor.
@@ -354,7 +349,7 @@ Proof.
   - unfold flex_layout.
     destruct (fold_left (flex_pass1 _ _) _ _) as [p1| | |]; try discriminate. cbn [bind].
     match goal with |- context [if ?b then _ else _] => destruct b end.
-    + destruct (fold_left (flex_pass2 _ _) _ _) as [p2| | |]; try discriminate. cbn [bind].
+    + destruct (fold_left (flex_pass2 _ _ _) _ _) as [p2| | |]; try discriminate. cbn [bind].
       destruct (flex_spaces _ _ _) as [sp| | |]; try discriminate. cbn [bind].
       destruct (fold_left _ _ _) as [placed off]. destruct (from_axes _ _ _) as [h w].
       destruct (ct_clamp c h w) as [hw| | |] eqn:E; try discriminate. cbn [bind]. intros [= <-].
